@@ -66,6 +66,8 @@ class Ctx:
                         if es.call(c, {"f": f, "record": False, "caught": None, "vars": {}}):
                             r = True
                             break
+                    if not r and es._stringified_exceptions(stmt_exprs(src), {"f": f}):
+                        r = True
                 cache[src.id] = r
             return r
         return ok
